@@ -71,3 +71,47 @@ def _dollar_digits(x, st, kind, sv, groups):
     from . import smt
     st.pc.append(z3.InRe(groups[1].t, z3.Plus(smt.RE("decimal"))))
     st.pc.append(groups[0].t == z3.Concat(z3.StringVal("$"), groups[1].t))
+
+
+# ---- re.sub with a constant replacement (lua_loader's path cleaning); facts about the RESULT only
+
+def _sub(pattern):
+    def deco(fn):
+        SUBS[pattern] = fn
+        return fn
+    return deco
+
+
+def _const_repl(repl, text):
+    return repl is not None and repl.k == "str" and z3.is_string_value(repl.t) and repl.t.as_string() == text
+
+
+@_sub(r"[\0-\037]")
+def _strip_controls(x, st, repl, src, result):
+    if _const_repl(repl, ""):
+        # nothing is added; an input without control characters is returned as it is
+        st.pc.append(z3.Length(result.t) <= z3.Length(src.t))
+        ctrl = z3.Range(chr(0), chr(0o37))
+        st.pc.append(z3.Implies(z3.Not(z3.InRe(src.t, z3.Concat(z3.Star(z3.AllChar(z3.ReSort(z3.StringSort()))),
+                                                        ctrl, z3.Star(z3.AllChar(z3.ReSort(z3.StringSort())))))),
+                                result.t == src.t))
+
+
+@_sub(r"//+")
+def _collapse_slashes(x, st, repl, src, result):
+    if _const_repl(repl, "/"):
+        st.pc.append(z3.Not(z3.Contains(result.t, z3.StringVal("//"))))
+
+
+@_sub(r"\.\.+")
+def _collapse_dots(x, st, repl, src, result):
+    if _const_repl(repl, "."):
+        # every maximal run of two or more dots becomes one dot: no two adjacent dots remain
+        st.pc.append(z3.Not(z3.Contains(result.t, z3.StringVal(".."))))
+
+
+@_sub(r"^/+")
+def _strip_leading_slashes(x, st, repl, src, result):
+    if _const_repl(repl, ""):
+        st.pc.append(z3.Not(z3.PrefixOf(z3.StringVal("/"), result.t)))
+        st.pc.append(z3.SuffixOf(result.t, src.t))
